@@ -43,8 +43,10 @@ ZonesOf(x) == (x + ZZ - 1) \div ZZ          \* Z(x) / Z_Z
 
 \* ---------------------------------------------------------------- lazy byte strings
 \* segment: [k |-> "lit", b |-> bytes, sd |-> 0, n |-> Len(b)]  or  [k |-> "pat", b |-> <<>>, sd |-> seed, n |-> length]
+\*          or  [k |-> "zero", b |-> <<>>, sd |-> 0, n |-> length]
 Lit(bytes) == [k |-> "lit", b |-> bytes, sd |-> 0, n |-> Len(bytes)]
 PatSeg(sd, n) == [k |-> "pat", b |-> <<>>, sd |-> sd, n |-> n]
+ZeroSeg(n) == [k |-> "zero", b |-> <<>>, sd |-> 0, n |-> n]          \* n zero bytes
 
 \* pattern bytes are never zero; the period (255) does not divide the page size
 Pat(sd, i) == 1 + ((i * (2 * (sd % 50) + 1) + sd) % 255)
@@ -56,7 +58,7 @@ BLen(bs) == IF bs = <<>> THEN 0 ELSE Head(bs).n + BLen(Tail(bs))
 RECURSIVE ByteAt(_, _)
 ByteAt(bs, i) ==
   LET h == Head(bs) IN
-  IF i < h.n THEN (IF h.k = "lit" THEN h.b[i + 1] ELSE Pat(h.sd, i))
+  IF i < h.n THEN (IF h.k = "lit" THEN h.b[i + 1] ELSE IF h.k = "zero" THEN 0 ELSE Pat(h.sd, i))
   ELSE ByteAt(Tail(bs), i - h.n)
 
 \* byte at i, zero beyond the end
@@ -74,6 +76,7 @@ NonZeroIn(bs, from, to) ==
            hi == Min2(to, h.n)
            here == IF hi <= lo THEN 0
                    ELSE IF h.k = "pat" THEN hi - lo
+                   ELSE IF h.k = "zero" THEN 0
                    ELSE CountNZ(h.b, lo + 1, hi)
        IN here + NonZeroIn(Tail(bs), from - h.n, to - h.n)
 
